@@ -277,4 +277,34 @@ theorem rekey_partition_ok (cfg : Cfg) (g : G) (d x : String) : (rekey (genAdm c
 example : (rekey (genAdm genCfg cexG "d2") "G").2.nodes.map (·.cdel) =
     [.dels [("G", "e")], .absent, .absent] := by decide
 
+/-- end to end for one holder: after partitioning for `d` and re-keying to graph id `x`, the holder's property
+has the single key `x` carrying the holder's original entry for `d` (or is absent if it had none) -/
+theorem rekey_partition_entry (n : Node) (d x : String) (hd : n.holds d = true) :
+    ∃ m, (n.rewrite d).rekey x = some m ∧
+      m.ldel.keys = (if d ∈ n.ldel.keys then [x] else []) ∧ (d ∈ n.ldel.keys → m.ldel.get x = n.ldel.get d) ∧
+      m.cdel.keys = (if d ∈ n.cdel.keys then [x] else []) ∧ (d ∈ n.cdel.keys → m.cdel.get x = n.cdel.get d) := by
+  have hc := Node.catalogued_of_holds hd
+  have key : ∀ p : DelProp, ∃ q, rekeyProp (p.restrict d) x = some q ∧
+      q.keys = (if d ∈ p.keys then [x] else []) ∧ (d ∈ p.keys → q.get x = p.get d) := by
+    intro p
+    unfold DelProp.restrict DelProp.get DelProp.keys
+    cases h : p.entries.find? (fun e => e.1 == d) with
+    | none =>
+      have : ¬ d ∈ p.entries.map (·.1) := by
+        intro hm
+        rcases List.mem_map.1 hm with ⟨e, he, rfl⟩
+        have := List.find?_eq_none.1 h e he
+        simp at this
+      exact ⟨.absent, rfl, by simp [this], fun h' => absurd h' this⟩
+    | some e =>
+      have h2 := List.mem_of_find?_eq_some h
+      have hd' : e.1 = d := by simpa using List.find?_some h
+      have : d ∈ p.entries.map (·.1) := List.mem_map.2 ⟨e, h2, hd'⟩
+      exact ⟨.dels [(x, e.2)], rfl, by simp [this], fun _ => by simp⟩
+  rcases key n.ldel with ⟨ql, hl1, hl2, hl3⟩
+  rcases key n.cdel with ⟨qc, hc1, hc2, hc3⟩
+  refine ⟨{ n.rewrite d with ldel := ql, cdel := qc }, ?_, hl2, hl3, hc2, hc3⟩
+  unfold Node.rekey
+  rw [Node.rewrite_ldel_of_catalogued d hc, Node.rewrite_cdel_of_catalogued d hc, hl1, hc1]
+
 end FimVerif.C13
